@@ -223,9 +223,15 @@ func faultMain(x *X) {
 				x.Probe("cancel-latency>half-run+200")
 			}
 		}
-		bound := 4*dry.Steps + 200
+		// the dry run has no per-callback latency; with latency every storage callback is one
+		// more scheduling step (the wake-up from the fake sleep), so count the callbacks in
+		work := dry.Steps
+		if c.Store.LatencyUs > 0 {
+			work += dry.N
+		}
+		bound := 4*work + 200
 		if o.CancelStep > 0 && o.ExecEnd > 0 && o.ExecEnd-o.CancelStep > bound {
-			x.Viol("C14", "cancel-latency", "cancel-latency|"+shape, fmt.Sprintf("%s: Exec returned %d scheduling steps after the cancellation (bound %d = 4x fault-free run + 200)", op.Q, o.ExecEnd-o.CancelStep, bound))
+			x.Viol("C14", "cancel-latency", "cancel-latency|"+shape, fmt.Sprintf("%s: Exec returned %d scheduling steps after the cancellation (bound %d = 4x the fault-free run's steps + 200)", op.Q, o.ExecEnd-o.CancelStep, bound))
 		}
 		switch {
 		case o.ClientPanic != "":
